@@ -20,7 +20,7 @@ def main():
     n_missed = sum(1 for r in rows if not r.rstrip().endswith("| - |"))
     SUMMARY = (
         "Round 1 (ids `Cxxa/b`) covered all 20 properties; round 2 (`r2`) all 20 again with the first round's mechanisms excluded; round 3 (`r3`) "
-        "C01-C03, C05-C09, C12, C13, C18, C20 with both earlier rounds excluded. Of the %d changes kept, %d were first missed by the check of their property and led to "
+        "C01-C03, C05-C09, C12, C13, C18, C20 with both earlier rounds excluded; round 4 (`r4`) the remaining ones (C04, C10, C11, C14-C17, C19) with all earlier mechanisms excluded. Of the %d changes kept, %d were first missed by the check of their property and led to "
         "the additions named in the last column; one (C14b) is still not caught (it is observationally indistinguishable through the API). Several agents also reported "
         "behaviour of the unchanged tree that contradicts a property: those remarks led to repairs F17, F20, F21, F22, F23 and to open findings F18, F26, F27 (section 10)." % (len(rows), n_missed)
     )
